@@ -453,12 +453,21 @@ def case_hist(rec, c):
     rec.state()
     h = []
     earlier = []
+    untouched = []
     for op in c['ops']:
         h.append(op)
         if op[0] in ('createPRISM', 'solve'):
             P = check_state(rec, case, s, spec, list(h), with_solve=(op[0] == 'solve'))
             if P is not None:
                 earlier.append((P, deep_digest(P), len(h)))
+            # a twin that nobody looks at until the System has been edited further (one PRISM object per state point,
+            # all of them used afterwards): it must still be wired from the System's state at the moment of creation
+            try:
+                with warnings.catch_warnings():
+                    warnings.simplefilter('ignore')
+                    untouched.append((s.createPRISM(), copy.deepcopy(spec), len(h)))
+            except Exception:
+                pass
         else:
             try:
                 spec = apply_edit(s, spec, op)
@@ -471,6 +480,14 @@ def case_hist(rec, c):
                     rec.fail(dict(case, ops=list(h)), 'history %s: the PRISM object created at step %d changed when the System was edited later' % (h, at),
                              {'kind': 'snapshot-leak'})
                     return
+    for Pl, spec_then, at in untouched:
+        if at == len(h):
+            continue
+        rec.trans()
+        for msg in spec_wiring(Pl, spec_then)[:2]:
+            rec.fail(dict(case, ops=list(h)), 'history %s: the PRISM object created at step %d and first used after the later edits is not wired from '
+                     'the System\'s state at step %d: %s' % (h, at, at, msg), {'kind': 'snapshot-leak'})
+            return
     rec.trace()
 
 
